@@ -7,7 +7,7 @@ from streams.loop import compare  # noqa: F401
 
 PID = "C01"
 LEVEL = "proof"
-LEAN_TARGETS = ["SyneTune.Props.C01", "SyneTune.Props.C13Loop", "SyneTune.Props.C20Loop"]
+LEAN_TARGETS = ["SyneTune.Props.C01", "SyneTune.Props.C13Loop", "SyneTune.Props.C20Loop", "SyneTune.Props.C01b"]
 DRIVER = "SyneTune/Drivers/Loop.lean"
 THEOREMS = [
     "SyneTune.C01.budget",
@@ -31,6 +31,19 @@ THEOREMS = [
     "SyneTune.C20Loop.resume_has_ckpt",
     "SyneTune.C20Loop.pbt_partial",
     "SyneTune.C20Loop.pbt_counterexample",
+    "SyneTune.C01b.counters_partition",
+    "SyneTune.C01b.started_keys",
+    "SyneTune.C01b.started_distinct",
+    "SyneTune.C01b.started_count",
+    "SyneTune.C01b.started_at_boundary",
+    "SyneTune.C01b.started_fin",
+    "SyneTune.C01b.started_end",
+    "SyneTune.C01b.started_not_recorded_counterexample",
+    "SyneTune.C01b.running_count_partial",
+    "SyneTune.C01b.running_count_eq",
+    "SyneTune.C01b.running_count_swd",
+    "SyneTune.C01b.in_progress_running",
+    "SyneTune.C01b.running_count_counterexample",
 ]
 TRUSTED = [
     "hand-written model lean/SyneTune/Model/{Tuner,TuningStatus,StoppingCriterion}.lean tied to /repo by the loop correspondence stream",
